@@ -656,15 +656,16 @@ Print Assumptions C16_rt_unicode_text.
 (* THE UNICODE HALF for origins of parse results, non-ASCII ToUnicode forms included: parser model + host model + IDNA
    model (Host::parse's IDNA step = idna_of A cfg) + ToUnicode model (idna::domain_to_unicode = origin_tu A cfg), ANY
    input, any blob nesting, any Host::parse_opaque.  If the origin of the parse result is (s, Domain d, p), its Unicode
-   serialization parses to a URL with that origin.  Premises: the eight sampled adapter facts; d is a fixed point of
-   Host::parse's IDNA step (false exactly on F-C10-1) and is outside Known_C12 / Known_C10_long; ASCII serialization
-   shorter than 2^32.  No IdnaOK, no premise on the host functions. *)
+   serialization parses to a URL with that origin.  Premises: the eight sampled adapter facts; d is outside Known_C12
+   (F-C12-1 / F-C16-1) and Known_C10_long (F-C10-1); ASCII serialization shorter than 2^32.  No IdnaOK, no premise on
+   the host functions: that d - a domain RETURNED by Host::parse, outside Known_C10_long - is a fixed point of the IDNA
+   step is proved (C10, idempotence of ToASCII). *)
 Theorem C16_rt_unicode_model : forall A cfg,
   AdapterOK A -> AdapterUSV A -> NvNoTrunc A -> NvIdem A -> AsciiNoMark A -> MapPrefix A -> NvMapFix A -> NvNoGrow A ->
   forall dbg ho input u c s d p c',
   url_parse dbg (Host.host_parse (idna_of A cfg)) ho Host.host_display input = POk u ->
   url_origin dbg (Host.host_parse (idna_of A cfg)) ho Host.host_display c u = OOk (Tuple s (HDomain d) p) c' ->
-  idna_of A cfg d = Some d -> Known_C12 A cfg d DENY_URL HAllow = false -> Known_C10_long d = false ->
+  Known_C12 A cfg d DENY_URL HAllow = false -> Known_C10_long d = false ->
   nlen (ascii_serialization Host.host_display (Tuple s (HDomain d) p)) < U32_MAX_P ->
   exists w, url_parse dbg (Host.host_parse (idna_of A cfg)) ho Host.host_display
               (unicode_serialization Host.host_display (origin_tu A cfg) (Tuple s (HDomain d) p)) = POk w
@@ -675,7 +676,7 @@ Check C16_rt_unicode_model : forall A cfg,
   forall dbg ho input u c s d p c',
   url_parse dbg (Host.host_parse (idna_of A cfg)) ho Host.host_display input = POk u ->
   url_origin dbg (Host.host_parse (idna_of A cfg)) ho Host.host_display c u = OOk (Tuple s (HDomain d) p) c' ->
-  idna_of A cfg d = Some d -> Known_C12 A cfg d DENY_URL HAllow = false -> Known_C10_long d = false ->
+  Known_C12 A cfg d DENY_URL HAllow = false -> Known_C10_long d = false ->
   nlen (ascii_serialization Host.host_display (Tuple s (HDomain d) p)) < U32_MAX_P ->
   exists w, url_parse dbg (Host.host_parse (idna_of A cfg)) ho Host.host_display
               (unicode_serialization Host.host_display (origin_tu A cfg) (Tuple s (HDomain d) p)) = POk w
@@ -698,8 +699,8 @@ Print Assumptions C16_ipv4_display_model.
    functions of the models - Host::parse = host model + IDNA model at the URL deny list, Display = host model,
    idna::domain_to_unicode = ToUnicode model - for the origin o of EVERY parse result, if o is a tuple then its ASCII AND its
    Unicode serialization parse to URLs whose origin is o.  Relative to the eight sampled adapter facts, outside the known
-   classes on the host of o (host_known_free: a domain is a fixed point of the IDNA step - F-C10-1 - and outside
-   Known_C12 / Known_C10_long; nothing for an IPv4 or IPv6 address), for an ASCII serialization shorter than 2^32. *)
+   classes on the host of o (host_known_free: a domain is outside Known_C12 and Known_C10_long; nothing for an IPv4 or
+   IPv6 address), for an ASCII serialization shorter than 2^32. *)
 Definition C16_rt_statement2 : Prop :=
   forall A cfg,
   AdapterOK A -> AdapterUSV A -> NvNoTrunc A -> NvIdem A -> AsciiNoMark A -> MapPrefix A -> NvMapFix A -> NvNoGrow A ->
